@@ -247,7 +247,13 @@ func doSys(t *testing.T, run *emit.Run, p *pool, r *rand.Rand, script []string) 
 
 	var steps []string
 	var ids []uint64
+	reported := map[uint64]string{} // id -> report the keeper accepted for it
+	var forced []string             // directed tail: report before the election, estimate, end-block
+	var forceID uint64
 	pickID := func() uint64 {
+		if forceID != 0 {
+			return forceID
+		}
 		if len(ids) == 0 || r.Intn(12) == 0 {
 			return uint64(1 + r.Intn(10))
 		}
@@ -291,6 +297,12 @@ func doSys(t *testing.T, run *emit.Run, p *pool, r *rand.Rand, script []string) 
 					}
 				}
 			}
+			if (rw.kind == "slc" || rw.kind == "usc") && ((rw.est > 0) != (rw.fees != nil)) {
+				run.Violate("C14:estimate-fees-disagree", fmt.Sprintf("fee-paying message %d (assignee #%d): elected estimate %d but fees %v", rw.id, p.id[rw.assignee], rw.est, rw.fees), replay())
+			}
+			if what, ok := reported[rw.id]; ok && !rw.pad && !rw.er {
+				run.Violate("C14:report-lost", fmt.Sprintf("the %s report accepted for message %d is gone from the queue row", what, rw.id), replay())
+			}
 			obs = append(obs, emit.Pair(emit.ZU(rw.id), emit.ZI(p.id[rw.assignee]), emit.ZU(rw.est), emit.Bool(rw.pad), emit.Bool(rw.er), f,
 				emit.ZI(remoteID(rw.remote)), emit.ZI(int64(rw.retries))))
 		}
@@ -321,6 +333,11 @@ func doSys(t *testing.T, run *emit.Run, p *pool, r *rand.Rand, script []string) 
 				}
 				if me.pad || me.er {
 					run.Violate("C14:offer-after-report", fmt.Sprintf("message %d offered although it has a delivery/error report", me.id), replay())
+				} else if what, ok := reported[me.id]; ok {
+					run.Violate("C14:offer-after-report-filed", fmt.Sprintf("message %d offered for relay although a %s report was filed (and accepted) for it earlier; the queue row no longer shows it", me.id, what), replay())
+				}
+				if (me.kind == "slc" || me.kind == "usc") && me.req && me.fees == nil {
+					run.Violate("C14:offer-without-fees", fmt.Sprintf("fee-paying message %d (elected estimate %d) offered to its assignee #%d without fees", me.id, me.est, p.id[me.assignee]), replay())
 				}
 				for _, o := range rs {
 					if o.id >= me.id {
@@ -410,6 +427,14 @@ func doSys(t *testing.T, run *emit.Run, p *pool, r *rand.Rand, script []string) 
 				what = "delete"
 			}
 		}
+		forceID = 0
+		if !scripted && len(forced) > 0 {
+			what = forced[0]
+			forced = forced[1:]
+			if what != "endblock" && len(ids) > 0 {
+				forceID = ids[len(ids)-1]
+			}
+		}
 		ts := ts0 + int64(r.Intn(50))
 		if !scripted && r.Intn(6) == 0 {
 			ts = int64(r.Intn(7))
@@ -457,13 +482,24 @@ func doSys(t *testing.T, run *emit.Run, p *pool, r *rand.Rand, script []string) 
 			case 3: // an account / trait change
 				j := r.Intn(len(s.snap))
 				s.snap[j] = genSval(r, s.snap[j].id, s.chain)
-			case 4, 5: // a relayer changes its price
-				s.setFee(r.Intn(s.np), niceMult[r.Intn(len(niceMult))])
+			case 4, 5: // a relayer changes its price (rarely to 0: the treasury then refuses to price its messages)
+				f := niceMult[r.Intn(len(niceMult))]
+				if r.Intn(6) == 0 {
+					f = 0
+				}
+				s.setFee(r.Intn(s.np), f)
 			case 6:
 				s.setMetrics(r, r.Intn(s.np))
 			case 7:
 				s.cf = new(big.Int).Rand(r, new(big.Int).Div(e18, bi(10)))
 				s.sf = new(big.Int).Rand(r, new(big.Int).Div(e18, bi(10)))
+				if r.Intn(4) == 0 { // governance sets a fund fee to "0": GetCombinedFeesForRelay fails for every message
+					if r.Intn(2) == 0 {
+						s.cf = bi(0)
+					} else {
+						s.sf = bi(0)
+					}
+				}
 				s.setFunds()
 			case 8:
 				if s.turn == "t7" {
@@ -560,6 +596,18 @@ func doSys(t *testing.T, run *emit.Run, p *pool, r *rand.Rand, script []string) 
 				}
 			}
 			for _, a := range after {
+				if a.id > maxBefore && (a.kind == "slc" || a.kind == "usc") && !scripted && len(forced) == 0 && r.Intn(5) == 0 {
+					rk := "error-data"
+					if r.Intn(3) == 0 {
+						rk = "public-access"
+					}
+					forced = []string{rk, "submit", "endblock"}
+					if r.Intn(2) == 0 {
+						forced = []string{"submit", rk, "endblock"}
+					}
+					nops += 3
+					run.Count("sys-directed", "report-before-election")
+				}
 				if a.id > maxBefore {
 					if el, why := s.sc.eligible(s.env, p, int(p.id[a.assignee]), a.remote, needMEV); !el {
 						run.Violate("C14:queued-assignee-ineligible", fmt.Sprintf("new message %d (%s) assigned to #%d: %s", a.id, a.kind, p.id[a.assignee], why), rp())
@@ -577,8 +625,10 @@ func doSys(t *testing.T, run *emit.Run, p *pool, r *rand.Rand, script []string) 
 			g := uint64(1 + r.Intn(400000))
 			if scripted {
 				g = 21000
-			} else if r.Intn(10) == 0 {
+			} else if forceID == 0 && r.Intn(10) == 0 {
 				g = 0
+			} else if forceID == 0 && r.Intn(12) == 0 {
+				g = emit.U64(r) // multiplier x gas may leave 64 bits: the fee step fails for this message only
 			}
 			for v := range p.addrs { // every validator of the pool: any later snapshot has 100 % of its power behind the estimate
 				_ = s.cons.AddMessageGasEstimates(s.ctx, p.addrs[v], []*consensustypes.MsgAddMessageGasEstimates_GasEstimate{{MsgId: id, QueueTypeName: s.qn, Value: g}})
@@ -690,11 +740,19 @@ func doSys(t *testing.T, run *emit.Run, p *pool, r *rand.Rand, script []string) 
 			}
 		case "public-access":
 			id := pickID()
-			_ = s.cons.SetMessagePublicAccessData(s.ctx, p.addrs[0], &consensustypes.MsgSetPublicAccessData{MessageID: id, QueueTypeName: s.qn, Data: []byte{2}, ValsetID: 1})
+			if err := s.cons.SetMessagePublicAccessData(s.ctx, p.addrs[0], &consensustypes.MsgSetPublicAccessData{MessageID: id, QueueTypeName: s.qn, Data: []byte{2}, ValsetID: 1}); err == nil {
+				if _, ok := reported[id]; !ok {
+					reported[id] = "delivery"
+				}
+			}
 			opS = fmt.Sprintf("SPublicAccess %d", id)
 		case "error-data":
 			id := pickID()
-			_ = s.cons.SetMessageErrorData(s.ctx, p.addrs[0], &consensustypes.MsgSetErrorData{MessageID: id, QueueTypeName: s.qn, Data: []byte{3}})
+			if err := s.cons.SetMessageErrorData(s.ctx, p.addrs[0], &consensustypes.MsgSetErrorData{MessageID: id, QueueTypeName: s.qn, Data: []byte{3}}); err == nil {
+				if _, ok := reported[id]; !ok {
+					reported[id] = "error"
+				}
+			}
 			opS = fmt.Sprintf("SError %d", id)
 		default:
 			id := pickID()
